@@ -6,7 +6,7 @@
 // argument, a parked consumer coroutine being resumed, RAII guards of the body being destroyed, the helper thread
 // completing an awaited operation) are appended as ` ; ev1 ev2 ...` in order of occurrence.
 //
-//   case <id> <v|a> <helper-delay 0..2>       v: generator<int>   a: generator<int,int>
+//   case <id> <v|a|rv|ra> <helper-delay 0..2>  v: generator<int>  a: generator<int,int>  rv: generator<int&>  ra: generator<int&,int>
 //   script <act>...      y<v> co_yield v | n co_yield nullptr | r co_await <ready cocls::future> |
 //                        p<k> co_await <harness event k> | f<k> co_await <cocls::future k> | g construct a RAII guard local |
 //                        t throw | x co_return          (falling off the end = co_return)
@@ -23,6 +23,7 @@
 //                        up to n times, as long as it was given a value
 //   call [a]             f = gen(a)                                -> call pending|ready|nomore
 //   fwait | fget         f.wait() (blocking) | non-blocking peek   -> fwait v:<n>|exc|novalue|pending
+//   fbool | fnot         if (f) | if (!f)  (future::operator bool / operator!, blocking)   -> fbool true|false  (has a value or exception)
 //   fawait | fhas        consumer coroutine: co_await f | co_await f.has_value()   -> events fawait=... / fhas=true|false
 //   begin | inc | deref | isend | pinc       it = gen.begin(); ++it; *it; it == gen.end(); it++
 //   beginc | arrow       it = generator_iterator(gen) (the advancing constructor); *it.operator->()
@@ -286,59 +287,74 @@ struct EventAwaiter {
     default:                                                                            \
         break;
 
-generator<int> body_v(const std::vector<Act> *script, Awaited *aw) {
-    std::vector<std::unique_ptr<Guard>> guards;   // locals with destructors
-    int idx = 0;
-    for (const Act &a : *script) {
-        ++idx;
-        switch (a.kind) {
-            case 'y':
-                if (idx & 1) {
-                    int lv = a.v;
-                    co_yield lv;            // yield_value(Ret &)
-                } else {
-                    co_yield int(a.v);      // yield_value(Ret &&): the value lives in a temporary of the frame
-                }
-                break;
-            case 'n':
-                co_yield nullptr;
-                break;
-            VH_COMMON_ACTS
-        }
+// value-typed and reference-typed generators run the same bodies (generator<int &> hands out references to the yielded
+// local / temporary of the frame instead of letting the future copy it)
+#define VH_DEFINE_BODY_V(NAME, GEN)                                                                         \
+    GEN NAME(const std::vector<Act> *script, Awaited *aw) {                                                 \
+        std::vector<std::unique_ptr<Guard>> guards; /* locals with destructors */                           \
+        int idx = 0;                                                                                        \
+        for (const Act &a : *script) {                                                                      \
+            ++idx;                                                                                          \
+            switch (a.kind) {                                                                               \
+                case 'y':                                                                                   \
+                    if (idx & 1) {                                                                          \
+                        int lv = a.v;                                                                       \
+                        co_yield lv; /* yield_value(Ret &) */                                               \
+                    } else {                                                                                \
+                        co_yield int(a.v); /* yield_value(Ret &&): the value lives in a temporary of the frame */ \
+                    }                                                                                       \
+                    break;                                                                                  \
+                case 'n':                                                                                   \
+                    co_yield nullptr;                                                                       \
+                    break;                                                                                  \
+                    VH_COMMON_ACTS                                                                          \
+            }                                                                                               \
+        }                                                                                                   \
     }
-}
 
-generator<int, int> body_a(const std::vector<Act> *script, Awaited *aw) {
-    std::vector<std::unique_ptr<Guard>> guards;
-    int idx = 0;
-    for (const Act &a : *script) {
-        ++idx;
-        switch (a.kind) {
-            case 'y': {
-                int got;
-                if (idx & 1) {
-                    int lv = a.v;
-                    got = co_yield lv;
-                } else {
-                    got = co_yield int(a.v);
-                }
-                ev("got=" + std::to_string(got));
-                break;
-            }
-            case 'n': {
-                int got = co_yield nullptr;   // the argument of the call that resumed (or first started) the body
-                ev("got=" + std::to_string(got));
-                break;
-            }
-            VH_COMMON_ACTS
-        }
+#define VH_DEFINE_BODY_A(NAME, GEN)                                                                         \
+    GEN NAME(const std::vector<Act> *script, Awaited *aw) {                                                 \
+        std::vector<std::unique_ptr<Guard>> guards;                                                         \
+        int idx = 0;                                                                                        \
+        for (const Act &a : *script) {                                                                      \
+            ++idx;                                                                                          \
+            switch (a.kind) {                                                                               \
+                case 'y': {                                                                                 \
+                    int got;                                                                                \
+                    if (idx & 1) {                                                                          \
+                        int lv = a.v;                                                                       \
+                        got = co_yield lv;                                                                  \
+                    } else {                                                                                \
+                        got = co_yield int(a.v);                                                            \
+                    }                                                                                       \
+                    ev("got=" + std::to_string(got));                                                       \
+                    break;                                                                                  \
+                }                                                                                           \
+                case 'n': {                                                                                 \
+                    int got = co_yield nullptr; /* the argument of the call that resumed (or first started) the body */ \
+                    ev("got=" + std::to_string(got));                                                       \
+                    break;                                                                                  \
+                }                                                                                           \
+                    VH_COMMON_ACTS                                                                          \
+            }                                                                                               \
+        }                                                                                                   \
     }
-}
+
+using gen_v = generator<int>;
+using gen_a = generator<int, int>;
+using gen_rv = generator<int &>;
+using gen_ra = generator<int &, int>;
+VH_DEFINE_BODY_V(body_v, gen_v)
+VH_DEFINE_BODY_V(body_rv, gen_rv)
+VH_DEFINE_BODY_A(body_a, gen_a)
+VH_DEFINE_BODY_A(body_ra, gen_ra)
 
 template <typename G>
 G body(const std::vector<Act> *script, Awaited *aw) {
-    if constexpr (G::arg_is_void) return body_v(script, aw);
-    else return body_a(script, aw);
+    if constexpr (std::is_same_v<G, gen_v>) return body_v(script, aw);
+    else if constexpr (std::is_same_v<G, gen_rv>) return body_rv(script, aw);
+    else if constexpr (std::is_same_v<G, gen_a>) return body_a(script, aw);
+    else return body_ra(script, aw);
 }
 
 // ---------------------------------------------------------------- consumer coroutines (detached, eager)
@@ -352,7 +368,8 @@ struct ctask {
     };
 };
 
-std::string item_of(future<int> &f) {   // non-blocking classification of a future
+template <typename F>
+std::string item_of(F &f) {   // non-blocking classification of a future
     if (!f.ready()) return "pending";
     try {
         return "v:" + std::to_string(f.value());
@@ -372,18 +389,28 @@ std::string item_of(future<int> &f) {   // non-blocking classification of a futu
 template <typename G>
 struct Case {
     static constexpr bool has_arg = !G::arg_is_void;
+    // iterators need a generator without argument; for generator<T &> `generator::iterator` names generator_iterator<generator<T>>
+    // (generator.h:68 strips the reference), so begin()/end()/range-for do not compile for it: reported as n/a
+    static constexpr bool has_iter = !has_arg && std::is_same_v<G, generator<int>>;
+    using iter_t = std::conditional_t<has_iter, typename G::iterator, int>;
     std::vector<Act> script;
     Awaited aw;
     GuardTab tab;
     std::optional<G> gen;
-    std::unique_ptr<future<int>> fut;
-    std::optional<typename G::iterator> it;
+    using fut_t = typename G::future_t;   // future<int> or future<int &>
+    std::unique_ptr<fut_t> fut;
+    std::optional<iter_t> it;
     std::deque<int> args;                  // arguments are passed by reference: keep them alive
     std::atomic<bool> parked{false};       // a consumer coroutine is inside co_await gen.next()
     std::atomic<bool> stuck{false};        // co_await gen.next() threw no_more_values (next_async keeps _caller set)
     std::atomic<bool> reader{false};       // a consumer coroutine awaits the current future
     bool gone = false;
     const void *first_id = nullptr;
+    // generator<T &>: the future of a call refers to the yielded object inside the frame; it may be dereferenced only until the
+    // next access resumes the body (or the generator is destroyed). The harness does not read a stale one (`stale`).
+    static constexpr bool is_ref = std::is_reference_v<typename G::future_t::value_type>;
+    bool fut_fresh = false;
+    bool stale() const { return is_ref && !fut_fresh; }
 
     // the consumer's callback awaiter (one per case; `_caller` points at it while a subscribe access is outstanding)
     struct Cb : awaiter {
@@ -446,7 +473,7 @@ struct Case {
             ev("anext=nomore");
         }
     }
-    ctask c_fawait(future<int> *f) {
+    ctask c_fawait(fut_t *f) {
         std::string r;
         try {
             int &v = co_await *f;
@@ -463,7 +490,7 @@ struct Case {
         reader.store(false);
         ev("fawait=" + r);
     }
-    ctask c_fhas(future<int> *f) {
+    ctask c_fhas(fut_t *f) {
         bool b = co_await f->has_value();
         reader.store(false);
         ev(b ? "fhas=true" : "fhas=false");
@@ -516,6 +543,10 @@ struct Case {
             std::ostringstream head;
             const std::string &op = w[0];
             head << op;
+            static const char *const access_ops[] = {"next", "nnext", "anext", "sub", "subr", "call", "while", "begin", "beginc", "inc", "pinc", "for"};
+            if (!gone && gen && std::find_if(std::begin(access_ops), std::end(access_ops), [&](const char *a) { return op == a; }) != std::end(access_ops) &&
+                !busy())
+                fut_fresh = false;   // this access resumes the body (or finds it finished): references handed out before are over
             if (op == "script") {
                 for (std::size_t i = 1; i < w.size(); ++i) {
                     Act a{w[i][0], w[i].size() > 1 ? atoi(w[i].c_str() + 1) : 0};
@@ -525,10 +556,10 @@ struct Case {
                 gen.emplace(body<G>(&script, &aw));
             } else if (op == "end") {
                 drain();
+                std::string fs = !fut ? "none" : stale() ? "stale" : item_of(*fut);
                 gone = true;
                 it.reset();
                 gen.reset();
-                std::string fs = fut ? item_of(*fut) : "none";
                 fut.reset();
                 int once = 0, multi = 0;
                 for (int d : tab.dtor) {
@@ -548,9 +579,19 @@ struct Case {
                     std::thread t([&] { aw.complete(k); });
                     t.join();
                 }
+            } else if (op == "fbool" || op == "fnot") {
+                // `if (f)` / `if (!f)`: future::operator bool / operator! -> has_value() -> awaitable_bool::operator bool (blocks while pending)
+                if (!fut) head << " nofut";
+                else {
+                    std::optional<Blocking> blk;
+                    if (!fut->ready()) blk.emplace();
+                    bool has = op == "fbool" ? bool(*fut) : !(!*fut);
+                    head << (has ? " true" : " false");
+                }
             } else if (op == "fwait" || op == "fget" || op == "fawait" || op == "fhas") {
                 // reading the future obtained by the last call: works whether or not the generator still exists
                 if (!fut) head << " nofut";
+                else if (stale() && op != "fhas") head << " stale";
                 else if (op == "fget") head << " " << item_of(*fut);
                 else if (op == "fwait") {
                     // the helper thread serves the body only if this wait really blocks
@@ -589,7 +630,7 @@ struct Case {
             } else if (op == "arrow") {
                 if (!it) head << " noit";
                 else if (inflight()) head << " busy";
-                else {
+                else if constexpr (has_iter) {
                     try {
                         int *pv = it->operator->();
                         head << " v:" << *pv;
@@ -602,7 +643,7 @@ struct Case {
             } else if (op == "deref") {
                 if (!it) head << " noit";
                 else if (inflight()) head << " busy";
-                else {
+                else if constexpr (has_iter) {
                     try {
                         int &v = **it;
                         head << " v:" << v;
@@ -613,13 +654,14 @@ struct Case {
                     }
                 }
             } else if (op == "isend") {
-                if constexpr (has_arg) head << " n/a";
+                if constexpr (!has_iter) head << " n/a";
                 else if (!it) head << " noit";
                 else head << " " << (*it == gen->end() ? 1 : 0);
             } else if (op == "destroy") {
                 if (inflight()) head << " busy";
                 else {
                     gone = true;
+                    fut_fresh = false;
                     it.reset();
                     gen.reset();
                 }
@@ -669,16 +711,17 @@ struct Case {
                 issue_sub(cb.arg);
             } else if (op == "call") {
                 try {
-                    std::unique_ptr<future<int>> nf;
-                    if constexpr (has_arg) nf.reset(new future<int>((*gen)(arg_of(w))));
-                    else nf.reset(new future<int>((*gen)()));
+                    std::unique_ptr<fut_t> nf;
+                    if constexpr (has_arg) nf.reset(new fut_t((*gen)(arg_of(w))));
+                    else nf.reset(new fut_t((*gen)()));
                     fut = std::move(nf);
+                    fut_fresh = true;
                     head << (fut->ready() ? " ready" : " pending");
                 } catch (const no_more_values_exception &) {
                     head << " nomore";
                 }
             } else if (op == "begin" || op == "beginc" || op == "inc" || op == "pinc" || op == "for") {
-                if constexpr (has_arg) {
+                if constexpr (!has_iter) {
                     head << " n/a";
                 } else if (op == "begin" || op == "beginc") {
                     Blocking blk;
@@ -762,11 +805,18 @@ int main(int argc, char **argv) {
             std::lock_guard<std::mutex> lk(helper.mx);
             helper.waiting = -1;
         }
-        if (w.size() > 2 && w[2] == "a") {
-            auto c = std::make_unique<Case<generator<int, int>>>();
+        const std::string mode = w.size() > 2 ? w[2] : "v";
+        if (mode == "a") {
+            auto c = std::make_unique<Case<gen_a>>();
+            c->run(std::cin);
+        } else if (mode == "ra") {
+            auto c = std::make_unique<Case<gen_ra>>();
+            c->run(std::cin);
+        } else if (mode == "rv") {
+            auto c = std::make_unique<Case<gen_rv>>();
             c->run(std::cin);
         } else {
-            auto c = std::make_unique<Case<generator<int>>>();
+            auto c = std::make_unique<Case<gen_v>>();
             c->run(std::cin);
         }
         std::cout.flush();
